@@ -13,7 +13,9 @@
                   is one of those outcomes:  no update lost; compare-exchange
                   failed only when the object differed from `expected`, stored
                   the observed value there and left the object alone, succeeded
-                  only if it wrote; exchange returned the value it replaced;
+                  only if it wrote and then did NOT store to `expected` (shared
+                  `expected` object taken over by another thread; `expected` in
+                  read-only memory); exchange returned the value it replaced;
                   the values atomic_fetch_* returned are explained by the same
                   serial order (linearizability includes the results) - under
                   the C11 convention (value before) or, for a whole execution,
@@ -71,14 +73,15 @@ NormR(M, fuel) ==
   ELSE LET N == StepP(M) IN IF N = M THEN M ELSE NormR(N, fuel - 1)
 Norm(M) == NormR(M, Fuel)
 
-Ctx(t) == [T |-> th[t], mem |-> mem, b |-> buf[t]]
+RoSet == {Case.ro[j] : j \in 1..Len(Case.ro)}
+Ctx(t) == [T |-> th[t], mem |-> mem, b |-> buf[t], ro |-> RoSet]
 
 InitMem == [a \in {Case.shared[j][1] : j \in 1..Len(Case.shared)} |->
               LET j == CHOOSE j \in 1..Len(Case.shared) : Case.shared[j][1] = a IN Case.shared[j][2]]
 
 Init == /\ c \in 1..Len(Cases)
         /\ mem = InitMem
-        /\ th = [t \in Threads |-> Norm([T |-> Fresh(t, 1, <<>>), mem |-> InitMem, b |-> <<>>]).T]
+        /\ th = [t \in Threads |-> Norm([T |-> Fresh(t, 1, <<>>), mem |-> InitMem, b |-> <<>>, ro |-> RoSet]).T]
         /\ buf = [t \in Threads |-> <<>>]
         /\ fin = FALSE
 
@@ -112,14 +115,17 @@ OpsWith(conv) == [t \in Threads |-> [k \in 1..Case.reps |->
                    [opk |-> OpkOf(Case.args[t][k][3], conv), v |-> Case.args[t][k][2], e |-> Case.args[t][k][3]]]]
 LinSet == Lin(Case.w, Case.sg, OpsWith("old"), Case.init)
 LinNew == Lin(Case.w, Case.sg, OpsWith("new"), Case.init)
-ObjVal == LET x == RdMem([T |-> th[1], mem |-> mem, b |-> <<>>], Case.obj, Case.w) IN Num(Case.w, x)
+RdObj(a) == Num(Case.w, RdMem([T |-> th[1], mem |-> mem, b |-> <<>>, ro |-> {}], a, Case.w))
+(* "casx": the judged state is the pair (atomic object, shared expected object at Case.aux) *)
+ObjVal == IF Case.opk = "casx" THEN [m |-> RdObj(Case.obj), x |-> RdObj(Case.aux)] ELSE RdObj(Case.obj)
 Outcome == [mem |-> ObjVal, rets |-> [t \in Threads |-> th[t].rets]]
 (* Case.keep: bytes that must have their given value at quiescence: every shared byte outside
    the object (a wider access than the object is a violation), and the lock word = 0.      *)
 KeptOK == \A j \in 1..Len(Case.keep) : mem[Case.keep[j][1]] = Case.keep[j][2]
 Errs == {th[t].err : t \in Threads} \ {""}
 Verdict ==
-  IF Errs # {} THEN "model:" \o (CHOOSE e \in Errs : TRUE)
+  IF RoErr \in Errs THEN "expected-written-on-success"
+  ELSE IF Errs # {} THEN "model:" \o (CHOOSE e \in Errs : TRUE)
   ELSE IF Outcome \in LinSet /\ KeptOK THEN "ok"
   ELSE IF Case.opk \in FetchOld /\ Outcome \in LinNew /\ KeptOK THEN "returns-new-value"
   ELSE IF Outcome.mem \notin {l.mem : l \in LinSet} THEN "lost-update"
